@@ -5,3 +5,8 @@ namespace MidnightZK.C07.Driver
 def answer (_line : String) : String := "unimplemented"
 
 end MidnightZK.C07.Driver
+
+/-- `mzk-c07 < ops.txt > model.txt` : one answer line per request line. -/
+def main : IO UInt32 := do
+  MidnightZK.lineLoop (← IO.getStdin) (← IO.getStdout) MidnightZK.C07.Driver.answer
+  return 0
